@@ -48,7 +48,8 @@ def main(argv):
         out = {}
         for i in [int(x) for x in a.digests.split(",") if x != ""]:
             r = runner.execute_isolated(a.prop, seed, i, tier=a.tier)
-            out[str(i)] = r["digest"]
+            out[str(i)] = [r["digest"], r["result"], r.get("sig", ""),
+                           r.get("detail", "")[:600]]
         runner.say("DIGESTS " + json.dumps(out))
         return 0
     runner.say(f"VERIF_SEED={seed} property={a.prop} tier={a.tier}")
@@ -65,6 +66,13 @@ def cmd_replay(argv):
     from . import runner, build
     path = argv[0]
     js0 = json.load(open(path))
+    hs = js0.get("hashseed")
+    if hs is not None and os.environ.get("PYTHONHASHSEED") != str(hs):
+        # the violation only shows under this hash seed
+        env = dict(os.environ)
+        env["VERIF_HASHSEED"] = str(hs)
+        env["PYTHONHASHSEED"] = str(hs)
+        os.execve(sys.executable, [sys.executable] + sys.argv, env)
     try:
         build.activate("plain")
     except build.BuildError as e:
